@@ -67,6 +67,37 @@ Section WithMerge.
   Definition set_llcap (s : sstack) (l : option fnode) : sstack :=
     match s with SS a i _ k => SS a i l k end.
 
+  (* mergerNotifyPersister: the stack handed to the persister gets the current
+     lower-level snapshot, and so do - recursively - its child stacks of the
+     current incarnations (refreshChildLLSnapshots; a child footer of another
+     incarnation counts as absent).  Without a lower-level snapshot only the
+     root's field is (re)set. *)
+  Definition child_ll (ll : option fnode) (n : cname) (inc : N) : option fnode :=
+    match ll with
+    | Some f => match assoc n (fn_kids f) with
+                | Some y => if N.eqb (fn_incar y) inc then Some y else None
+                | None => None end
+    | None => None
+    end.
+  Fixpoint refresh_llcap (m : cnode) (s : sstack) (ll : option fnode) {struct s} : sstack :=
+    match s with
+    | SS a inc _ kids =>
+        SS a inc ll
+           ((fix go (ks : list (cname * sstack)) : list (cname * sstack) :=
+               match ks with
+               | [] => []
+               | (n, ch) :: r =>
+                   (n, match assoc n (cn_kids m) with
+                       | Some cm => if N.eqb (cn_incar cm) (ss_incar ch)
+                                    then refresh_llcap cm ch (child_ll ll n (cn_incar cm))
+                                    else ch
+                       | None => ch
+                       end) :: go r
+               end) kids)
+    end.
+  Definition handover_llcap (m : cnode) (s : sstack) (ll : option fnode) : sstack :=
+    match ll with Some _ => refresh_llcap m s ll | None => set_llcap s None end.
+
   Definition tstep (c : cfg) (s : tstate) (lb : tlabel) : option tstate :=
     if t_closed s then None else
     match lb with
@@ -103,7 +134,7 @@ Section WithMerge.
             | None, Some m =>
                 if has_ll c then
                   Some {| t_coll := t_coll s; t_top := t_top s; t_mid := None;
-                          t_base := Some (set_llcap m (t_ll s)); t_clean := t_clean s;
+                          t_base := Some (handover_llcap (t_coll s) m (t_ll s)); t_clean := t_clean s;
                           t_ll := t_ll s; t_merger := TMIdle; t_persister := t_persister s;
                           t_cached := t_cached s; t_closed := false |}
                 else
